@@ -441,7 +441,19 @@ func checkC10(c *Ctx, r *Report) error {
 	raceBin := filepath.Join(c.Out, "c10race")
 	raceNote := ""
 	{
-		cmd := exec.Command("go", "build", "-race", "-tags", "verif", "-o", raceBin, "./cmd/c10")
+		args := []string{"build", "-race", "-tags", "verif"}
+		if rp, err := filepath.EvalSymlinks(c.Repo); err == nil && rp != "/repo" {
+			// a scratch tree under test (VERIF_REPO): the same harness module, replaced by that tree
+			if gm, err := os.ReadFile(filepath.Join(c.Verif, "harness", "go.mod")); err == nil {
+				mf := filepath.Join(c.Out, "go.race.mod")
+				os.WriteFile(mf, []byte(strings.ReplaceAll(string(gm), "=> /repo", "=> "+rp)), 0o644)
+				if gs, err := os.ReadFile(filepath.Join(rp, "go.sum")); err == nil {
+					os.WriteFile(filepath.Join(c.Out, "go.race.sum"), gs, 0o644)
+				}
+				args = append(args, "-modfile", mf)
+			}
+		}
+		cmd := exec.Command("go", append(args, "-o", raceBin, "./cmd/c10")...)
 		cmd.Dir = filepath.Join(c.Verif, "harness")
 		cmd.Env = append(os.Environ(), "CGO_ENABLED=1")
 		t0 := time.Now()
